@@ -80,7 +80,7 @@ def random_free(kind, c, rng, n):
     return steps
 
 
-def run_family(prop, tier, plan, free_plan, assumptions, mc_extra=(), post=None, idle_plan=()):
+def run_family(prop, tier, plan, free_plan, assumptions, mc_extra=(), post=None, idle_plan=(), scope=()):
     import time
     res = vlib.Result(prop, tier)
     tm = {}
@@ -172,10 +172,10 @@ def run_family(prop, tier, plan, free_plan, assumptions, mc_extra=(), post=None,
     if len(inc) > max(3, n // 50):
         raise vlib.Inconclusive("%d of %d scenarios inconclusive, e.g. %s" % (len(inc), n, inc[0]))
     mon = MONITOR[plan[0][0] if plan else free_plan[0][0]]
-    rej, _, nlines = vlib.validate(SPEC, mon, tr_path, set())
+    rej, _, nlines = vlib.validate(SPEC, mon, tr_path, set(scope))
     if rej:
         kd = vlib.known_devs(prop)
-        rej2, devs, _ = vlib.validate(SPEC, mon, tr_path, set(kd))
+        rej2, devs, _ = vlib.validate(SPEC, mon, tr_path, set(kd) | set(scope))
         still = {r[0] for r in rej2}
         cnt = {}
         for tr, _, d in devs:
